@@ -126,12 +126,12 @@ def load (imp : Imp) (name : String) (ns : Dict Val) (code : Option Body) (uncac
       (if uncache then ({ s with sysModules := s.sysModules.erase name } : S).emit (.failed name) else s, .error f)
 
 /-- path-based finder -/
-def findPath : List (Dict Src) → Nat → String → Option (String × Src)
+def findPath (lab : Nat → String) : List (Dict Src) → Nat → String → Option (String × Src)
   | [], _, _ => .none
   | d :: ds, i, name =>
     match d.get name with
-    | some src => some (s!"d{i}/{name}.py", src)
-    | none => findPath ds (i + 1) name
+    | some src => some (s!"{lab i}/{name}.py", src)
+    | none => findPath lab ds (i + 1) name
 
 /-- `p` of a dotted module name `p.q…` -/
 def dottedHead (name : String) : Option String :=
@@ -149,7 +149,7 @@ def importPlain (env : Env) (nested : Option Imp) (name : String) (s : S) : S ×
       match env.goMods.get name with                       -- built-in finder first
       | some impl => load imp name (freshNs name .none impl.globals impl.methods) impl.body true s
       | none =>
-        match findPath env.dirs 0 name with
+        match findPath env.lab env.dirs 0 name with
         | none => (s, .error (.raise .importError))
         | some (_, .bad) => (s, .error (.raise .syntaxError))
         | some (file, .code body) => load imp name (freshNs name (some file) [] []) (some body) true s
